@@ -29,6 +29,45 @@ fn pieces(thorough: bool) -> Vec<connx::Piece> {
 /// `segments`, segment i accompanied by `fds_per_seg[i]` descriptors (read ends of tagged
 /// pipes); the connection reads after every send.
 fn socketpair_case(stream: &[u8], cuts: &[usize], fds_at: &[(usize, usize)]) -> Result<(usize, usize), String> {
+    socketpair_case_mode(stream, cuts, fds_at, 0)
+}
+
+fn open_devnull() -> RawFd {
+    unsafe { libc::open(b"/dev/null\0".as_ptr() as *const libc::c_char, libc::O_RDONLY) }
+}
+
+/// `mode` decides which descriptor numbers the kernel hands out for received descriptors:
+/// 0 lowest free above everything the process holds (ascending in arrival order);
+/// 1 descriptor number 0 is free whenever the connection reads (the first descriptor received
+///   becomes number 0, as in a daemon that closed its standard input);
+/// 2 a lower number becomes free before every read (descending in arrival order across reads).
+fn socketpair_case_mode(stream: &[u8], cuts: &[usize], fds_at: &[(usize, usize)], mode: u8) -> Result<(usize, usize), String> {
+    // make sure number 0 is occupied while the scenario's own descriptors are created
+    if unsafe { libc::fcntl(0, libc::F_GETFD) } < 0 {
+        let fd = open_devnull();
+        if fd != 0 {
+            return Err(format!("harness: could not occupy descriptor 0 (got {})", fd));
+        }
+    }
+    let mut placeholders: Vec<RawFd> = vec![];
+    if mode == 2 {
+        for _ in 0..6 {
+            placeholders.push(open_devnull());
+        }
+    }
+    let r = socketpair_case_inner(stream, cuts, fds_at, mode, &mut placeholders);
+    for p in placeholders {
+        unsafe {
+            libc::close(p);
+        }
+    }
+    if unsafe { libc::fcntl(0, libc::F_GETFD) } < 0 {
+        open_devnull();
+    }
+    r
+}
+
+fn socketpair_case_inner(stream: &[u8], cuts: &[usize], fds_at: &[(usize, usize)], mode: u8, placeholders: &mut Vec<RawFd>) -> Result<(usize, usize), String> {
     let (client, server) = UnixStream::pair().map_err(|e| e.to_string())?;
     server.set_nonblocking(true).unwrap();
     let mut conn = HttpConnection::new(server);
@@ -41,6 +80,9 @@ fn socketpair_case(stream: &[u8], cuts: &[usize], fds_at: &[(usize, usize)]) -> 
     bounds.push(stream.len());
     let mut prev = 0usize;
     let mut kept: Vec<std::fs::File> = vec![];
+    let mut conn_reads = 0usize;
+    // descriptor 0 is a placeholder of the harness (true) or belongs to a received file (false)
+    let mut ph0 = true;
     for (si, &end) in bounds.iter().enumerate() {
         let seg = &stream[prev..end];
         prev = end;
@@ -73,8 +115,27 @@ fn socketpair_case(stream: &[u8], cuts: &[usize], fds_at: &[(usize, usize)]) -> 
                 }
             }
         }
+        // descriptor numbers available to the receiving side for this read
+        if mode == 1 && ph0 {
+            unsafe {
+                libc::close(0);
+            }
+            ph0 = false;
+        } else if mode == 2 {
+            if let Some(p) = placeholders.pop() {
+                unsafe {
+                    libc::close(p);
+                }
+            }
+        }
         // read until would-block
         loop {
+            if mode == 1 && conn_reads > 0 && !ph0 && unsafe { libc::fcntl(0, libc::F_GETFD) } < 0 {
+                // keep number 0 free only for the first read of this segment
+                open_devnull();
+                ph0 = true;
+            }
+            conn_reads += 1;
             match util::catch(|| conn.try_read()) {
                 Err(p) => return Err(format!("try_read panicked: {}", p)),
                 Ok(Ok(())) => {}
@@ -99,6 +160,11 @@ fn socketpair_case(stream: &[u8], cuts: &[usize], fds_at: &[(usize, usize)]) -> 
                 kept.append(&mut r.files);
             }
         }
+        if mode == 1 && !ph0 && unsafe { libc::fcntl(0, libc::F_GETFD) } < 0 {
+            open_devnull();
+            ph0 = true;
+        }
+        conn_reads = 0;
     }
     drop(kept);
     drop(conn);
@@ -142,6 +208,18 @@ pub fn run(thorough: bool) -> Vec<Part> {
         crate::explore::require_facts(&mut part, "fd-alphabet", &st, &["descriptors_on_read_completing_no_request", "descriptors_on_read_completing_one_request", "descriptors_on_read_completing_several_requests", "descriptors_on_eof_read"]);
         for (v, _) in &st.violations {
             part.violations.push(v.clone());
+        }
+        {
+            // the same alphabet with descriptor numbers that are not monotonic in arrival order
+            let mut z = cfg.clone();
+            z.label = "fd-alphabet (zigzag descriptor numbers)".into();
+            z.zigzag_fds = true;
+            z.offer_when_queued_le = if thorough { 20 } else { 6 };
+            let stz = bfs(&z, &Limits { max_states: 3_000_000, max_secs: if thorough { 1500.0 } else { 60.0 }, ..Default::default() }, workers());
+            record(&mut part, &z.label, &stz);
+            for (v, _) in &stz.violations {
+                part.violations.push(v.clone());
+            }
         }
         // second graph: the application does not pop after every read (smaller alphabet)
         let mut dcfg = Cfg::base("C12", "fd-alphabet-deferred-pops", pieces(false), 40);
@@ -217,13 +295,21 @@ pub fn run(thorough: bool) -> Vec<Part> {
     }
     let base_fds = fd_count();
     let t = par_enum(
-        cases.len() as u64,
+        3 * cases.len() as u64,
         workers(),
         60,
         |i, t| {
-            let (si, cuts, fds_at) = &cases[i as usize];
+            let mode = (i % 3) as u8;
+            let (si, cuts, fds_at) = &cases[(i / 3) as usize];
+            if mode != 0 && fds_at.is_empty() {
+                return;
+            }
+            // descriptor 0 must be in the same condition before and after
+            if unsafe { libc::fcntl(0, libc::F_GETFD) } < 0 {
+                open_devnull();
+            }
             let before = fd_count();
-            let r = socketpair_case(&streams[*si], cuts, fds_at);
+            let r = socketpair_case_mode(&streams[*si], cuts, fds_at, mode);
             let after = fd_count();
             t.evals += 1;
             if !fds_at.is_empty() {
@@ -234,20 +320,20 @@ pub fn run(thorough: bool) -> Vec<Part> {
                     t.count(&format!("delivered_{}_requests_{}_descriptors", nreq, nfd));
                     t.outcome((nreq * 16 + nfd) as u64);
                     if after != before {
-                        t.violate("fd-leak", format!("process holds {} descriptors after the scenario, {} before (stream {}, cuts {:?}, descriptors at {:?})", after, before, si, cuts, fds_at), json!({"engine": "socketpair", "stream": util::hex(&streams[*si]), "cuts": cuts, "fds_at": fds_at}));
+                        t.violate("fd-leak", format!("process holds {} descriptors after the scenario, {} before (stream {}, cuts {:?}, descriptors at {:?})", after, before, si, cuts, fds_at), json!({"engine": "socketpair", "stream": util::hex(&streams[*si]), "cuts": cuts, "fds_at": fds_at, "mode": mode}));
                     }
                 }
                 Err(e) => t.violate(
                     if e.contains("leak") { "fd-leak" } else if e.contains("carries descriptors") { "fd-attribution" } else { "socketpair-failure" },
-                    format!("{} (stream {}, cuts {:?}, descriptor batches (segment, count) {:?})", e, si, cuts, fds_at),
-                    json!({"engine": "socketpair", "stream": util::hex(&streams[*si]), "cuts": cuts, "fds_at": fds_at}),
+                    format!("{} (stream {}, cuts {:?}, descriptor batches (segment, count) {:?}, descriptor-number mode {})", e, si, cuts, fds_at, mode),
+                    json!({"engine": "socketpair", "stream": util::hex(&streams[*si]), "cuts": cuts, "fds_at": fds_at, "mode": mode}),
                 ),
             }
             if i % 997 == 5 {
                 t.sample(json!({"stream": util::show(&streams[*si]), "cuts": cuts, "descriptor_batches_segment_count": fds_at}));
             }
         },
-        |i| format!("socketpair case {}", i),
+        |i| format!("socketpair case {} (descriptor-number mode {})", i / 3, i % 3),
     );
     let _ = base_fds;
     t.record(&mut part, "socketpair-scm-rights");
@@ -263,8 +349,12 @@ pub fn replay_socketpair(v: &serde_json::Value) -> (bool, serde_json::Value) {
     let stream = util::unhex(v["stream"].as_str().unwrap());
     let cuts: Vec<usize> = v["cuts"].as_array().unwrap().iter().map(|x| x.as_u64().unwrap() as usize).collect();
     let fds_at: Vec<(usize, usize)> = v["fds_at"].as_array().unwrap().iter().map(|x| (x[0].as_u64().unwrap() as usize, x[1].as_u64().unwrap() as usize)).collect();
+    let mode = v["mode"].as_u64().unwrap_or(0) as u8;
+    if unsafe { libc::fcntl(0, libc::F_GETFD) } < 0 {
+        open_devnull();
+    }
     let before = fd_count();
-    let r = socketpair_case(&stream, &cuts, &fds_at);
+    let r = socketpair_case_mode(&stream, &cuts, &fds_at, mode);
     let after = fd_count();
     let bad = r.is_err() || before != after;
     (bad, json!({"result": format!("{:?}", r), "fds_before": before, "fds_after": after}))
